@@ -124,7 +124,7 @@ def tilt_text(rng, v, style):
 
 
 def gen_mdoc(rng, n, cls="plain", section_id="ZValue", scheme=None, ties=False, with_prior=None, value_kinds=None,
-             allow_exp=False):
+             allow_exp=False, prior_mode="cumulative"):
     """-> struct dict(header=[(k,v)], titles=[..], section_id, sections=[{"id": text, "items": [(k, v), ...]}], layout={...})
     All values are texts as they will stand in the file (already stripped)."""
     hostile = cls in ("values", "expfloat", "unicode")
@@ -197,6 +197,10 @@ def gen_mdoc(rng, n, cls="plain", section_id="ZValue", scheme=None, ties=False, 
                 v = ("%r" % exposure) if rng.random() < 0.9 else ("%d" % round(exposure))
             elif k == "PriorRecordDose":
                 p = exposure * int(acq_rank[j])
+                if prior_mode == "zeros":          # PriorRecordDose present and 0 in EVERY image (dose = 0 + exposure)
+                    p = 0.0
+                elif prior_mode == "constant":     # one distinct non-zero value in every image
+                    p = 3 * exposure
                 v = "0" if p == 0 and rng.random() < 0.7 else "%r" % float(np.round(p, 4))
             elif k == "DateTime":
                 v = "12-Jan-21  14:%02d:%02d" % (int(acq_rank[j]) // 2 % 60, 30 * (int(acq_rank[j]) % 2) + int(rng.integers(0, 29)))
